@@ -13,6 +13,7 @@ import SspModel.Model.Validate
 import SspModel.Model.FeH
 import SspModel.Model.Kroupa
 import SspModel.Model.Closed
+import SspModel.Model.BHPop
 /-!
 # Line-protocol driver: one op per line in, one line out. Doubles cross as 16-hex-digit bit patterns.
 Runs the *same* model terms the theorems are about, at the `Float` instance.
@@ -213,6 +214,44 @@ def step (ws : List String) : String :=
         let r := closedRemnants c bins cells mt
         s!"{fl stars} | {toHex mt} | {pairsOut r.wd} | {pairsOut r.ns} | {pairsOut r.bh} | {toHex r.lost}"
     | _ => "bad-op"
+  | "bhderiv" :: t :: nm :: fa :: rest =>
+    -- the nested `_derivs_BHs`: bhderiv <t> <nminBH> <finalAge> <Ns> <alpha> <sev cfg tokens>
+    let (Ns, r1) := takeList rest
+    let (al, r2) := takeList r1
+    let (ms, r3) := takeList r2
+    let (tmsU, r4) := takeList r3
+    match r4 with
+    | a0 :: a1 :: a2 :: nmin :: fwd :: fns :: fbh :: r5 =>
+      let (wd, r6) := takeList r5
+      let (ns, r7) := takeList r6
+      let (bh, r8) := takeList r7
+      let (f, _) := parseIfmr r8
+      let c : SevCfg Float := ⟨pairs ms, tmsU, parseHex a0, parseHex a1, parseHex a2, parseHex nmin,
+        parseHex fwd, parseHex fns, parseHex fbh, pairs wd, pairs ns, pairs bh, f⟩
+      match derivsBH c (parseHex nm) (parseHex fa) (parseHex t) Ns al with
+      | .ok o =>
+        let i := match o.isev with | some i => toString i | none => "-"
+        let r := match o.rem with
+          | some (ir, dN, dM) => s!"{ir} {toHex dN} {toHex dM}"
+          | none => "-"
+        s!"ok {i} {toHex o.dNs} {o.defined} {r}"
+      | .error (.lookup .below) => "err below"
+      | .error (.lookup .above) => "err above"
+      | .error (.notBH cls) => s!"err notBH {clsName cls}"
+    | _ => "bad-op"
+  | "finalage" :: a0 :: a1 :: a2 :: bhLo :: off :: _ =>
+    let c : SevCfg Float := ⟨[], [], parseHex a0, parseHex a1, parseHex a2, 0, 0, 0, 0, [], [], [],
+      ⟨0, parseHex bhLo, 0, fun x => x, fun x => x⟩⟩
+    toHex (finalAge c (parseHex off))
+  | "losses" :: mto :: rest =>
+    -- losses <mto> <A list> <alpha list> <final Ns list> <flat star bins>
+    let (As, r0) := takeList rest
+    let (al, r1) := takeList r0
+    let (fin, r2) := takeList r1
+    let (ms, _) := takeList r2
+    let bins : List (ClosedBin Float) := (List.zip (pairs ms) (List.zip al As)).map fun ((l, u), (a, A)) => ⟨l, u, a, A⟩
+    let (n, m) := losses bins fin (parseHex mto)
+    s!"{toHex n} {toHex m}"
   | "esc" :: normM :: t :: tcc :: rate :: md :: rest =>
     let (sf, r1) := takeList rest
     let (rf, _) := takeList r1
